@@ -7,18 +7,23 @@ Alpha == {<<97>>, <<98>>, CNT, <<65>>, <<10>>, <<92>>, <<194, 160>>, CCRAB, <<19
 InSeq == SetToSeq(StrsUpTo(Alpha, MaxChars))
 AltBytes(k) == [b \in 1..Len(AltSets[k]) |-> [a \in 1..Len(AltSets[k][b]) |-> Bytes(AltSets[k][b][a])]]
 
+\* TLC computes and checks initial states on one thread; the (form, alternative list) cases are therefore reached
+\* in two steps (a start state, 16 dispatch states, then the cases) so that the workers share them
 VARIABLES form, k
-Init == form \in Forms /\ k \in 1..Len(AltSets)
-Next == UNCHANGED <<form, k>>
+Cases    == SetToSeq(Forms \X (1..Len(AltSets)))
+Init == form = "start" /\ k = 0
+Next == \/ form = "start" /\ form' = "dispatch" /\ k' \in 1..16
+        \/ form = "dispatch" /\ \E q \in 1..Len(Cases) : q % 16 = k % 16 /\ form' = Cases[q][1] /\ k' = Cases[q][2]
 Spec == Init /\ [][Next]_<<form, k>>
+IsCase == form \in Forms
 
 \* the generated code computes what the property says, for every input
 \* (the literal decoding AltBytes(k) is bound once per state: TLC caches a LET value, not an operator application)
-Agree == LET ab == AltBytes(k) IN \A q \in 1..Len(InSeq) : FormM(form, ab, InSeq[q]) = FormR(form, ab, InSeq[q])
+Agree == IsCase => LET ab == AltBytes(k) IN \A q \in 1..Len(InSeq) : FormM(form, ab, InSeq[q]) = FormR(form, ab, InSeq[q])
 
 Line == [m |-> "ParserMethod", form |-> form, k |-> k,
          exp |-> LET ab == AltBytes(k) IN [q \in 1..Len(InSeq) |-> LET r == FormR(form, ab, InSeq[q]) IN <<r.b, r.lo, r.hi>>]]
-EmitInv == Serialize(ToJson(Line) \o "\n", IOEnv.OUT,
+EmitInv == IsCase => Serialize(ToJson(Line) \o "\n", IOEnv.OUT,
                      [format |-> "TXT", charset |-> "UTF-8", openOptions |-> <<"WRITE", "CREATE", "APPEND">>]).exitValue = 0
 \* header: the inputs (in order) and the decoded bytes of every literal
 Header == ndJsonSerialize(IOEnv.HDR, <<[inputs |-> InSeq, lits |-> [l \in {x.id : x \in Lits} |-> Bytes(l)]]>>)
